@@ -8,6 +8,7 @@ use crate::spec::*;
 use serde_json::{json, Value};
 use crate::sweep::{run_sweep, Sweep};
 use std::sync::Arc;
+use vlib::refhdr::Val;
 use vlib::par::{decode, product};
 use vlib::report::{Acc, SubReport, Violation};
 
@@ -49,6 +50,54 @@ pub fn sweeps(ctx: &Ctx) -> Vec<Sweep> {
     let env = Env::new(&ctx.repo, "c03");
     let bases = Arc::new(bases(ctx, &env));
     let mut v = vec![];
+    // (0) tags that are none of the four standard digests must not change the verdict
+    {
+        let b0 = bases.clone();
+        let rad0 = [bases.len() as u64, 2, 2, 2, 2, 6];
+        let n0 = product(&rad0);
+        v.push(Sweep::new("unrelated-tags", format!("{} base packages × each of the four digests ∈ {{absent, correct}} × one change to a tag that is none of them: none / alternate (uncompressed) payload digest wrong / absent / payload compressor set to a name this build cannot unpack / payload digest stored as I18NSTRING, right / wrong ({} packages): the first four must verify, a wrong digest must not pass whatever its entry's type", bases.len(), n0), n0, move |i, acc| {
+            let d = decode(i, &rad0);
+            let pick = |x: u64| if x == 0 { D::Absent } else { D::Correct };
+            let plan = DigestPlan { md5: pick(d[1]), sha1: pick(d[2]), sha256: pick(d[3]), payload: pick(d[4]), algo: 8 };
+            let mut parts = b0[d[0] as usize].1.clone();
+            let what = ["none", "alternate payload digest wrong", "alternate payload digest absent", "payload compressor 'lzma'", "payload digest as I18NSTRING (right)", "payload digest as I18NSTRING (wrong)"][d[5] as usize];
+            match d[5] {
+                1 => set(&mut parts.main, 5097, Some(Val::strs(&["00000000000000000000000000000000000000000000000000000000deadbeef"]))),
+                2 => set(&mut parts.main, 5097, None),
+                3 => set(&mut parts.main, 1125, Some(Val::str("lzma"))),
+                _ => {}
+            }
+            acc.evals += 1;
+            let (mut x, _) = with_digests(&parts, &plan);
+            if d[5] >= 4 {
+                if plan.payload == D::Absent {
+                    return;
+                }
+                // re-type the payload digest entry (and falsify it for variant 5), then let the header digests follow
+                let mut p2 = split(&x).unwrap_or_else(|| crate::ctx::machinery("c03: cannot split"));
+                let cur = get(&p2.main, TAG_PAYLOADDIGEST).cloned();
+                if let Some(Val::StrArray(a)) = cur {
+                    let mut item = a[0].clone();
+                    if d[5] == 5 {
+                        item[0] = if item[0] == b'0' { b'1' } else { b'0' };
+                    }
+                    set(&mut p2.main, TAG_PAYLOADDIGEST, Some(Val::I18n(vec![item])));
+                    let plan2 = DigestPlan { md5: plan.md5, sha1: plan.sha1, sha256: plan.sha256, payload: D::Absent, algo: 8 };
+                    // payload: D::Absent would drop the tag: keep ours by re-adding it after the header digests are planned
+                    let keep = get(&p2.main, TAG_PAYLOADDIGEST).cloned();
+                    let keep_algo = Some(Val::Int32(vec![8]));
+                    let (y, _) = with_digests_keep(&p2, &plan2, keep, keep_algo);
+                    x = y;
+                }
+            }
+            let case = || json!({"bytes_hex": vlib::hex(&x), "base": b0[d[0] as usize].0, "digests(md5,sha1,sha256,payload) 0=absent 1=correct": [d[1], d[2], d[3], d[4]], "changed": what});
+            if let Some(vd) = judge("unrelated-tags", &x, i, &case, acc) {
+                if !matches!(vd, DigestVerdict::Undefined(_)) {
+                    acc.nontrivial += 1;
+                }
+            }
+        }));
+    }
     // (a) matrix
     // last axis: index order of (signature, main) header: sorted / reversed / first entry moved last
     const ORDERS: [(u8, u8); 6] = [(0, 0), (1, 0), (2, 0), (0, 1), (1, 1), (2, 2)];
